@@ -79,8 +79,11 @@ class Fold:
         self.fast_ret = t.orelse[0].value
         # after the loop: return ''.join(ret_chars)
         last = body[-1]
-        if not (isinstance(last, ast.Return) and ast.unparse(last.value) == "''.join(ret_chars)"):
-            raise extract.Outside("general path does not end with ''.join(ret_chars)")
+        v = last.value if isinstance(last, ast.Return) else None
+        if not (isinstance(v, ast.Call) and isinstance(v.func, ast.Attribute) and v.func.attr == "join" and isinstance(v.func.value, ast.Constant)
+                and v.func.value.value == "" and len(v.args) == 1 and isinstance(v.args[0], ast.Name)):
+            raise extract.Outside("general path does not end with ''.join(<list of pieces>)")
+        self.acc = v.args[0].id            # the list the loop appends to (whatever it is called)
         if not (isinstance(self.loop.target, ast.Name) and ast.unparse(self.loop.iter) == "line"):
             raise extract.Outside("loop is not `for <char> in line`")
 
@@ -108,9 +111,9 @@ class Fold:
             if ch == LF:
                 return []                    # precondition of foldline: no LF in the line (AssertionError otherwise)
             ns = dict(zip(state_vars, q))
-            ns.update({"ret_chars": [], "limit": self.limit, "fold_sep": self.fold_sep, var: ch})
+            ns.update({self.acc: [], "limit": self.limit, "fold_sep": self.fold_sep, var: ch})
             exec(code, glb, ns)
-            out = "".join(ns["ret_chars"])
+            out = "".join(ns[self.acc])
             q2 = tuple(ns[v] for v in state_vars)
             if any(abs(x) > 10 * self.limit for x in q2 if isinstance(x, int)):
                 raise extract.Outside("loop state is not bounded")
@@ -263,7 +266,7 @@ def run(rep: common.Report):
         # the loop variable may only be used as len(<char>.encode(..)) and appended
         uses = [ast.unparse(n) for n in ast.walk(fold.loop) if isinstance(n, ast.Name) and n.id == fold.loop.target.id and isinstance(n.ctx, ast.Load)]
         src = ast.unparse(fold.loop)
-        if src.count(fold.loop.target.id + ".encode(") + src.count("append(" + fold.loop.target.id + ")") != len(uses):
+        if src.count(fold.loop.target.id + ".encode(") + src.count(fold.acc + ".append(" + fold.loop.target.id + ")") != len(uses):
             raise extract.Outside("the loop inspects the character beyond its encoded length")
         states = T.explore(200000)
     except (extract.Outside, NotImplementedError) as e:
